@@ -4,8 +4,7 @@ use std::io::{BufWriter, Read, Write};
 use std::path::{Path, PathBuf};
 use std::{env, fs, io};
 use xml_dom::{
-    AsNode, Attr, AttrMut, CharacterData, Document, DocumentMut, Element, NamedNodeMapMut, Node,
-    PrettyPrint,
+    AsNode, Attr, CharacterData, Document, DocumentMut, Element, NamedNodeMapMut, Node, PrettyPrint,
 };
 
 struct Argument {
@@ -231,8 +230,10 @@ where
 {
     match child {
         xml_dom::XmlNode::Attribute(v) => {
-            let mut n = document_of(&node)?.create_attribute(v.name().as_str())?;
-            n.borrow_mut().set_value(v.value()?.as_str())?;
+            let n = document_of(&node)?.create_attribute(v.name().as_str())?;
+            for descendant in v.child_nodes().iter() {
+                append_child_to_tree(n.clone(), descendant)?;
+            }
 
             if let Some(mut attr) = node.attributes() {
                 attr.borrow_mut().set_named_item(n)?;
